@@ -38,19 +38,21 @@ Lemma comp_clear_b bk kl d cur tch p n cur' tch' lp al : Comp bk kl d cur tch ->
 Proof.
   intros C H E. unfold clear_prefix_keys. cbn [fst].
   apply (Comp_clear_gen bk kl d cur tch p (Some n) (-1)%Z _ cur' tch' lp al C); try assumption.
-  - right. exists n. split; [reflexivity|]. destruct H as [->| ->].
-    + rewrite (untouched_killed bk d cur tch p C). cbn. lia.
-    + rewrite untouched_nil. cbn. lia.
+  - right. exists n. split; [reflexivity|]. intros k I. apply In_skipn' in I.
+    destruct H as [->| ->]; [|destruct I].
+    now apply (touched_killed bk d cur tch p C).
   - intros k P. apply keys_to_clear_mem; [apply wf_cbase; apply C | apply C | exact P].
   - left. lia.
 Qed.
 
-Lemma limit_guard_cases' m d p n : wf m ->
+Lemma limit_guard_cases' (m : omap val) d p n : wf m ->
   limit_guard d p (matching_keys p m) n = false ->
-  N.of_nat (length (go_S_of m d p)) < n \/
-  ((forall k, has_prefix p k = true -> om_mem k (ups d) = false) /\
-   (forall k, In k (matching_keys p m) -> ks_mem k (dels d) = false)).
+  N.of_nat (length (matching_keys p m)) < n \/
+  (forall k, has_prefix p k = true -> om_mem k (ups d) = false).
 Proof. exact (limit_guard_cases m d p n). Qed.
+
+Lemma go_S_le (m : omap val) d p : (length (go_S_of m d p) <= length (matching_keys p m))%nat.
+Proof. apply filter_length_le'. Qed.
 
 (* (c) a limit, committed keys present, outside the finding class *)
 Lemma comp_clear_c bk d cur tch p n cur' tch' lp al : Comp bk false d cur tch ->
@@ -60,12 +62,12 @@ Lemma comp_clear_c bk d cur tch p n cur' tch' lp al : Comp bk false d cur tch ->
                   (fst (fst (clear_prefix_keys d p (matching_keys p bk) (Z.of_N n)))) d) cur' tch'.
 Proof.
   intros C G E. unfold clear_prefix_keys. cbn [fst]. pose proof C as [W S Wt V TT].
-  destruct (limit_guard_cases' bk d p n W G) as [Big|[A1 A2]].
+  destruct (limit_guard_cases' bk d p n W G) as [Big|A1].
   - apply (Comp_clear_gen bk false d cur tch p (Some n) (Z.of_N n) _ cur' tch' lp al C); try assumption.
-    + right. exists n. split; [reflexivity|]. pose proof (untouched_le bk d cur tch p C). lia.
+    + right. exists n. split; [reflexivity|]. rewrite skipn_all2 by lia. intros k [].
     + intros k P. now apply keys_to_clear_mem.
-    + right. cbn [cbase]. rewrite keys_to_clear_cnt by exact S. lia.
-  - apply (Comp_clear_first bk d cur tch p n _ cur' tch' lp al C A1 A2); [|exact E].
+    + right. cbn [cbase]. rewrite keys_to_clear_cnt by exact S. pose proof (go_S_le bk d p). lia.
+  - apply (Comp_clear_first bk d cur tch p n _ cur' tch' lp al C A1); [|exact E].
     exact (go_clear_first bk d p S n A1).
 Qed.
 
@@ -80,13 +82,13 @@ Proof.
   intros C G E. pose proof C as [W S Wt V TT].
   assert (Wb : wf (cbase bk kl)) by now apply wf_cbase.
   rewrite <- (matching_nil_prefix (cbase bk kl)) in G.
-  destruct (limit_guard_cases' (cbase bk kl) d [] n Wb G) as [Big|[A1 A2]].
+  destruct (limit_guard_cases' (cbase bk kl) d [] n Wb G) as [Big|A1].
   - apply (Comp_clear_gen bk kl d cur tch [] (Some n) (Z.of_N n) _ cur' tch' lp al C); try assumption.
     + right. exists n. split; [reflexivity|]. destruct kl.
-      * rewrite (untouched_killed bk d cur tch [] C). cbn. lia.
-      * pose proof (untouched_le bk d cur tch [] C). cbn [cbase] in Big. lia.
+      * intros k I. apply In_skipn' in I. now apply (touched_killed bk d cur tch [] C).
+      * cbn [cbase] in Big. rewrite skipn_all2 by lia. intros k [].
     + intros k _. now apply kill_keys_mem.
-    + right. rewrite kill_keys_cnt by assumption. lia.
+    + right. rewrite kill_keys_cnt by assumption. pose proof (go_S_le (cbase bk kl) d []). lia.
   - (* no upsert at all *)
     assert (U : ups d = []).
     { destruct (ups d) as [|[k v] r] eqn:EU; [reflexivity|]. specialize (A1 k (has_prefix_nil k)).
@@ -105,7 +107,7 @@ Proof.
       { rewrite U. cbn [om_keys map]. rewrite cp_loop_first; [|intros; reflexivity | lia].
         rewrite app_nil_r, rev_involutive. rewrite (filter_all (has_prefix [])) by (intros; apply has_prefix_nil).
         rewrite matching_nil_prefix. f_equal. lia. }
-      pose proof (Comp_clear_first bk d cur tch [] n (om_keys bk) cur' tch' lp al C A1 A2 GD E) as R.
+      pose proof (Comp_clear_first bk d cur tch [] n (om_keys bk) cur' tch' lp al C A1 GD E) as R.
       rewrite GD in R. rewrite matching_nil_prefix in R. exact R.
 Qed.
 
@@ -338,6 +340,9 @@ Section StepTx.
       split; [reflexivity|]. apply GSR_top; try assumption.
       apply (GLR_main_update b D l _ _ _ R). now apply Comp_del.
     - (* ClearPrefix *)
+      cbn [fix_child_prefix cfg_fixed andb].
+      destruct (covers_child_keys p) eqn:CK; [split; [reflexivity | apply GSR_top; assumption]|].
+      unfold state_keys_cp. cbn [fix_child_prefix cfg_fixed].
       rewrite state_keys_fixed. unfold d_clear_prefix.
       destruct (spec_clear_eta (c_main (view l)) (c_main bkd) (t_main l) p None) as (m' & t' & lp & al & E).
       rewrite E. rewrite M in E.
@@ -347,8 +352,12 @@ Section StepTx.
       split; [reflexivity|]. apply GSR_top; try assumption.
       exact (GLR_main_update b D l _ _ _ R C').
     - (* ClearPrefixLimit *)
-      unfold step_guard in G. cbn [ts_txs ts_state s] in G. rewrite state_keys_fixed in G.
+      cbn [fix_child_prefix cfg_fixed andb].
+      destruct (covers_child_keys p) eqn:CK; [split; [reflexivity | apply GSR_top; assumption]|].
+      unfold step_guard in G. cbn [ts_txs ts_state s fix_child_prefix cfg_fixed andb] in G. rewrite CK in G.
+      rewrite state_keys_fixed in G.
       destruct (limit_guard (d_main D) p (matching_keys p (bk_main b)) n) eqn:LG; [discriminate|].
+      unfold state_keys_cp. cbn [fix_child_prefix cfg_fixed].
       rewrite state_keys_fixed. unfold d_clear_prefix.
       destruct (spec_clear_eta (c_main (view l)) (c_main bkd) (t_main l) p (Some n)) as (m' & t' & lp & al & E).
       rewrite E. rewrite M in E.
@@ -607,7 +616,7 @@ Lemma spec_clear_direct_first (m : omap val) p n m' t' lp al : wf m ->
 Proof.
   intros W E.
   assert (I2 : forall k, om_mem k m = true -> ks_mem k [] = false -> om_mem k m = true) by (intros k Hk _; exact Hk).
-  assert (A0 : forall k, has_prefix p k = true -> ks_mem k [] = true -> om_mem k m = false /\ om_mem k m = false)
+  assert (A0 : forall k, has_prefix p k = true -> ks_mem k [] = true -> om_mem k m = false)
     by (intros k _ T; discriminate).
   now destruct (spec_clear_first m m [] p W W wf_nil I2 n m' t' lp al A0 E) as (E1 & _ & _).
 Qed.
@@ -648,14 +657,18 @@ Section StepDirect.
     - (* Del *) split; [reflexivity|]. apply GSR_direct; try reflexivity.
       unfold bk_del. apply bwf_main; [exact B | now apply wf_del].
     - (* ClearPrefix *)
+      cbn [fix_child_prefix cfg_fixed].
+      destruct (covers_child_keys p) eqn:CK; [split; [reflexivity | now apply GSR_direct]|].
       destruct (spec_clear_eta (bk_main b) (bk_main b) [] p None) as (m' & t' & lp & al & E). rewrite E.
       rewrite (spec_clear_direct_all _ p m' t' lp al Wm E). cbn [fst snd].
       split; [reflexivity|]. apply GSR_direct; try reflexivity.
       apply bwf_main; [exact B | now apply wf_filter].
     - (* ClearPrefixLimit *)
+      cbn [fix_child_prefix cfg_fixed].
+      destruct (covers_child_keys p) eqn:CK; [split; [reflexivity | now apply GSR_direct]|].
       destruct (spec_clear_eta (bk_main b) (bk_main b) [] p (Some n)) as (m' & t' & lp & al & E). rewrite E.
       rewrite (spec_clear_direct_first _ p n m' t' lp al Wm E).
-      unfold step_guard in G. cbn [ts_txs ts_state s] in G.
+      unfold step_guard in G. cbn [ts_txs ts_state s fix_child_prefix cfg_fixed andb] in G. rewrite CK in G.
       destruct (order_guard (bk_main b) p n) eqn:OG; [discriminate|].
       pose proof (trie_clear_limit_lex (bk_main b) p n Wm OG) as TL.
       destruct (trie_clear_prefix_limit (bk_main b) p n) as [[mg dg] ag]. cbn in TL. subst mg.
